@@ -1,0 +1,28 @@
+//go:build verif
+
+// Contracts for the deductive checker in /verif (comment-only).
+
+package validate
+
+// ---------------------------------------------------------------- ordered.go (C19)
+// Package invariant: while the lock is free the shared hash object is in its reset state and
+// the map and sentinel error exist. init establishes it, Ordered preserves it.
+// Lock discipline: the map and the shared hash object are only touched inside the critical section.
+//@ guarded_by lock: m, h ; C19
+//@ pred pkgInv() := !lock.held && h != nil && h.stream == "" && m != nil && errNotNewer != nil
+//@
+//@ func init()
+//@   property C19
+//@   modifies *
+//@   ensures[establishes] h != nil && h.stream == "" && m != nil && errNotNewer != nil
+//@
+//@ func Ordered(key []byte, ts uint32) error
+//@   property C19
+//@   requires pkgInv()
+//@   let k := fnv64a(key[..])
+//@   modifies lock.held, h.stream, m[..]
+//@   ensures[accept]   ts >  old(m[k]) ==> result == nil && has(m, k) && m[k] == ts
+//@   ensures[reject]   ts <= old(m[k]) ==> result == errNotNewer && has(m, k) == old(has(m, k)) && m[k] == old(m[k])
+//@   ensures[others]   forall j int :: j != k ==> has(m, j) == old(has(m, j)) && m[j] == old(m[j])
+//@   ensures[inv]      pkgInv()
+//@   ensures[key_kept] key[..] == old(key[..])
